@@ -21,6 +21,9 @@ Probed facts (emitted as Lean data in Gen/C16.lean, decided against the model in
  * pathInfoProbe        `static_view(root, use_subpath=False).get_resource_name(request)` for 16 raw PATH_INFO values
                         (ASCII, UTF-8 two- and three-byte names, `..`, `//`, `%2e%2e`, backslash, NUL, overlong UTF-8):
                         URLDecodeError | HTTPNotFound | the resource name
+ * pkgRootNameProbe     `get_resource_name` for the package-ROOT spec `pkg:` (empty docroot), the same tuples, with and without slash
+ * sourcePathProbe      `FSAssetSource(prefix).get_path(name)` / `PackageAssetSource(pkg, prefix).get_path(name)`: 7 prefixes x 9 names
+ * overrideApplyProbe   `PackageOverrides.insert(path, src)` + `filtered_sources(name)`: 6 paths x 11 names; most recent first
  * findResourceProbe    `find_resource_path(name)` for a regular file / a directory / a missing name, filesystem and
                         package root: found or not, and that what is returned is the OS path of the name
 Fail closed: any exception, time-out, disagreement between positions or unexpected value makes `probeStatus` an
@@ -45,6 +48,10 @@ GEN_CONFIGS = [
 ]
 GEN_ASSETS = ['c16probepkg:static/sub/a.css', 'c16probepkg:static2/x y.txt', 'c16probepkg:static', '/abs/dir/\u00fc', 'c16probepkg:staticx/y']
 GEN_QUERIES = [None, [True, [['a', '1'], ['x', '0']]], [False, [['x', '0'], ['a', '1']]]]
+SRC_PREFIXES = ['/d', '/d/', '/d/e', '/d/e/']
+SRC_NAMES = ['', 'a', 'a/b', '/a', '//a/b', '/index.html', 'a/', '/etc/passwd', 'a.css.gz']
+OV_PATHS = ['', 'static/', 'static/a.css', 'st', 'static', 's/t/']
+OV_NAMES_P = ['static/a.css', 'static/', 'static', 'st', 'stat/x', '', '/static/a.css', 'static/a.css.gz', 's/t/u', 'index.html', '/index.html']
 PATH_INFOS = ['/a', '/a/b.c', '/', '', '/a/../b', '//a//./b/', '/../../x', '/%2e%2e/x', '/a\\b', '/..\\..\\x', '/a\x00',
               '/\xc3\xbc', '/d/\xe6\x97\xa5', '/\xc0\xae\xc0\xae/x', '/\xc3', '/...']
 
@@ -214,6 +221,49 @@ def _probe():
                     except ValueError as e:
                         r = ['nostatic' if 'No static URL definition' in str(e) else 'error', '']
                     out['generate'].append([[list(a) for a in adds], busters, asset, q, r[0], r[1]])
+        # --- package-ROOT spec (`pkg:`, empty docroot) and the asset-override layer
+        view = S.static_view(pkg + ':', use_subpath=True)
+        if view.package_name != pkg or view.docroot != '':
+            raise RuntimeError('package-root spec resolved to %r:%r' % (view.package_name, view.docroot))
+        prn = []
+        for t in tuples:
+            if any(x in ('static', '__init__.py') for x in t):
+                continue
+            for slash in (False, True):
+                req = request('/p/' if slash else '/p')
+                req.subpath = t
+                prn.append([slash, list(t)] + name_of(view, req))
+        out['pkgroot_name'] = prn
+        from pyramid.config.assets import FSAssetSource, PackageAssetSource, PackageOverrides
+        sp_ = []
+        for prefix in SRC_PREFIXES:
+            for nm in SRC_NAMES:
+                sp_.append([False, prefix, nm, FSAssetSource(prefix).get_path(nm)])
+        for prefix in ('', 'alt/', 'alt/x.css'):
+            for nm in SRC_NAMES:
+                sp_.append([True, prefix, nm, PackageAssetSource('c16probepkg', prefix).get_path(nm)])
+        out['source_path'] = sp_
+
+        class FakePkgResources:
+            def register_loader_type(self, *a):
+                pass
+
+        class FakePackage:
+            __name__ = 'c16fake'
+        oa = []
+        for path in OV_PATHS:
+            po = PackageOverrides(FakePackage(), pkg_resources=FakePkgResources())
+            po.insert(path, 'SRC')
+            for nm in OV_NAMES_P:
+                got = list(po.filtered_sources(nm))
+                if got and (len(got) != 1 or got[0][0] != 'SRC' or not isinstance(got[0][1], str)):
+                    raise RuntimeError('filtered_sources(%r) for override %r = %r' % (nm, path, got))
+                oa.append([path, nm, got[0][1] if got else None])
+        po = PackageOverrides(FakePackage(), pkg_resources=FakePkgResources())
+        po.insert('a/', 'first'); po.insert('a/', 'second')
+        if [x for x, _ in po.filtered_sources('a/x')] != ['second', 'first']:
+            raise RuntimeError('overrides are not consulted most recent first')
+        out['override_apply'] = oa
         out['status'] = 'ok'
     except BaseException as e:      # noqa — fail closed
         out = {'status': 'unknown: %s: %s' % (type(e).__name__, str(e)[:200])}
@@ -235,7 +285,7 @@ def facts(src_root):
         want = os.path.realpath(os.path.join(src_root, 'pyramid', 'static.py'))
         if f.get('module') != want:
             return {'status': 'unknown: the probe imported %s, not the tree under test' % f.get('module')}
-        for k in ('chars', 'elems', 'secure', 'resource_name', 'path_info', 'find_resource', 'register', 'buster_order', 'generate'):
+        for k in ('chars', 'elems', 'secure', 'resource_name', 'path_info', 'find_resource', 'register', 'buster_order', 'generate', 'pkgroot_name', 'source_path', 'override_apply'):
             if not isinstance(f.get(k), list):
                 return {'status': 'unknown: probe answer lacks %s' % k}
     return f
@@ -275,7 +325,7 @@ def generate(src_root):
     ok = f.get('status') == 'ok'
     summary.clear()
     summary.update({'status': f.get('status'), 'chars': f.get('chars'), 'elems': f.get('elems'),
-                    'entries': {k: len(f[k]) for k in ('secure', 'resource_name', 'path_info', 'find_resource', 'register', 'buster_order', 'generate')} if ok else None})
+                    'entries': {k: len(f[k]) for k in ('secure', 'resource_name', 'path_info', 'find_resource', 'register', 'buster_order', 'generate', 'pkgroot_name', 'source_path', 'override_apply')} if ok else None})
     g = (lambda k: f[k]) if ok else (lambda k: [])
     L = ['/- GENERATED by extract/c16.py by probing the code of src/pyramid/static.py — do not edit. -/',
          'namespace Pyr.Static.Gen', '',
@@ -320,6 +370,16 @@ def generate(src_root):
              _lean_text(asset),
              'none' if q is None else '(some (%s, [%s]))' % (_lean_bool(q[0]), ', '.join('(%s, %s)' % (_lean_text(a), _lean_text(b)) for a, b in q[1])),
              _lean_str(kind), _lean_text(url)) for adds, busters, asset, q, kind, url in g('generate')), ']', '',
+         '/-- `(trailing slash?, request.subpath, outcome, name)` of `get_resource_name` for the package-ROOT spec `pkg:` -/',
+         'def pkgRootNameProbe : List (Bool × List (List Char) × String × List Char) := [',
+         ',\n'.join('  (%s, %s, %s, %s)' % (_lean_bool(sl), _lean_tuple(t), _lean_str(k), _lean_text(n or '')) for sl, t, k, n in g('pkgroot_name')), ']', '',
+         '/-- `(package source?, prefix, name, get_path(name))` of FSAssetSource / PackageAssetSource -/',
+         'def sourcePathProbe : List (Bool × List Char × List Char × List Char) := [',
+         ',\n'.join('  (%s, %s, %s, %s)' % (_lean_bool(k), _lean_text(pf), _lean_text(nm), _lean_text(r)) for k, pf, nm, r in g('source_path')), ']', '',
+         '/-- `(overridden path, resource name, what the override hands to its source: none = no match)` of',
+         '`PackageOverrides.insert` + `filtered_sources` -/',
+         'def overrideApplyProbe : List (List Char × List Char × Option (List Char)) := [',
+         ',\n'.join('  (%s, %s, %s)' % (_lean_text(pa), _lean_text(nm), _lean_opt(r)) for pa, nm, r in g('override_apply')), ']', '',
          'end Pyr.Static.Gen', '']
     return {'PyramidModel/Gen/C16.lean': '\n'.join(L)}
 
